@@ -298,8 +298,9 @@ class Ref:
 # ------------------------------------------------------------------------------ generation
 class Gen:
     def __init__(self, rng, macros=True, includes=True, conds=True, kept=True, pos=True,
-                 strings=True, comments=True, max_depth=3, nonascii=True, scenarios=False):
+                 strings=True, comments=True, max_depth=3, nonascii=True, scenarios=False, crlf=False):
         self.r = rng
+        self.crlf = crlf      # line ends written CR LF (where the generator chooses them)
         self.o = dict(macros=macros, includes=includes, conds=conds, kept=kept, pos=pos,
                       strings=strings, comments=comments, nonascii=nonascii, scenarios=scenarios)
         self.max_depth = max_depth
@@ -310,7 +311,8 @@ class Gen:
 
     def blank(self, need_nl=False):
         if need_nl:
-            return Ws(self.r.choice(["\n", " \n", "\n  ", "\n\n", "  \n"]))
+            w = self.r.choice(["\n", " \n", "\n  ", "\n\n", "  \n"])
+            return Ws(w.replace("\n", "\r\n") if self.crlf else w)
         return Ws(self.r.choice(BLANKS))
 
     def plain(self, n):
@@ -325,7 +327,7 @@ class Gen:
         r = self.r
         body = r.choice(["c", "x y", "`notmacro", "\"q", "é中" if self.o["nonascii"] else "u", "* /", ""])
         if r.random() < 0.5:
-            return [Cmt("//" + body.replace("\n", " ")), Ws("\n")]
+            return [Cmt("//" + body.replace("\n", " ")), Ws("\r\n" if self.crlf else "\n")]
         return [Cmt("/*" + body.replace("*/", "* /") + "*/"), self.blank()]
 
     def items(self, depth, n, top_file):
